@@ -99,6 +99,7 @@ func c02(r *core.Run) {
 	r.Rule("N1", "no drop / no duplicate: in enqueue every path past the started-check that reaches a return has stored the callback exactly once (append to the pending item, or new item holding it pushed on the work queue); refusal returns are only the not-started / closing edges", 2)
 	r.Rule("N2", "wake-up: every push on S.workqueue is followed on all paths by Signal/Broadcast on the worker condition; Cond.Wait sits in a loop that re-checks the queue", 2)
 	r.Rule("O1", "single sequential listener: request handling is called only from the listener loop, the listener only from serve by a plain call on the channel stored as the in-channel, and there is no go statement on the call path serve ->* enqueue", 4)
+	r.Rule("A2", "order across producers: the lookup of a group's pending work item and the register/append that follows are one critical section (same obligations as C01.A2): otherwise two producers can create two work items for one group and later submissions overtake earlier ones", 4)
 	r.Rule("W1", "With: Resource returns a non-nil error exactly on the no-handler edge; With returns that error without reaching enqueue and otherwise reaches enqueue exactly once and returns nil", 4)
 
 	a, e := queueEngine(r, "Q1")
@@ -314,6 +315,8 @@ func c02(r *core.Run) {
 		}
 	}
 
+	// ---- A2 (shared with C01) ---------------------------------------------
+	c01Enqueue(r, a, e)
 	// ---- O1 --------------------------------------------------------------
 	c02Listener(r, a, root)
 	// ---- W1 --------------------------------------------------------------
